@@ -2246,6 +2246,27 @@ fn gen_c16(ch: &mut Choices) -> Plan {
         }
         plan.tags.push("edge-values".into());
     }
+    if ver == Ver::V5 && !before_handshake && ch.chance(1, 6) {
+        // motif: the peer announced a very small Maximum Packet Size (legal: any non-zero value), and then
+        // sends requests whose answers cannot fit - a SUBSCRIBE / UNSUBSCRIBE with many filters, QoS 1 / 2
+        // publishes. The answers must not be written; encoding them must not panic either
+        let m = *ch.pick(&[1u32, 2, 3, 4, 5, 6, 7, 8, 12, 20, 64]);
+        if role.is_server() {
+            plan.peer.connect.props.push((39, PropVal::U32(m)));
+        } else {
+            plan.peer.connack_props.push((39, PropVal::U32(m)));
+        }
+        let at = ch.choose(plan.peer.script.len() as u32 + 1) as usize;
+        let n = *ch.pick(&[1usize, 20, 80]);
+        let pkt = match ch.choose(if role.is_server() { 4 } else { 2 }) {
+            0 => Pkt::Publish(mk_publish(ver, ch, 130, 1, Some(0x5001), 2)),
+            1 => Pkt::Publish(mk_publish(ver, ch, 131, 2, Some(0x5002), 2)),
+            2 => Pkt::Subscribe(rc::Subscribe { pid: 0x5003, props: Vec::new(), filters: (0..n).map(|k| (format!("m/{k}"), (k % 3) as u8)).collect() }),
+            _ => Pkt::Unsubscribe(rc::Unsubscribe { pid: 0x5004, props: Vec::new(), filters: (0..n).map(|k| format!("m/{k}")).collect() }),
+        };
+        plan.peer.script.insert(at, step(pkt, ver, Pre::Connected));
+        plan.tags.push(format!("peer-max-packet:{m}"));
+    }
     if before_handshake && role.is_server() {
         // the first packet replaces CONNECT
         plan.peer.skip_connect = true;
